@@ -120,9 +120,40 @@ class Multiline:
     -------
     self
     """
+    self._check_mergeable(gfa_line)
     for of in gfa_line.tagnames:
       self.add(of, gfa_line.get(of), gfa_line.get_datatype(of))
     return self
+
+  def _check_mergeable(self, gfa_line):
+    """
+    Check that all tags of a header line can be merged, before merging any,
+    so that a refused header line is not partially merged.
+    """
+    for of in gfa_line.tagnames:
+      prev = self.get(of)
+      if prev is None:
+        continue
+      value = gfa_line.get(of)
+      datatype = gfa_line.get_datatype(of)
+      if isinstance(prev, gfapy.FieldArray):
+        prev_datatype = prev.datatype
+      elif of in self.SINGLE_DEFINITION_TAGS:
+        if self.field_to_s(of) != \
+            gfapy.Field._to_gfa_field(value, fieldname=of):
+          raise gfapy.InconsistencyError(
+            "Inconsistent values for header tag {} found\n".format(of)+
+            "Previous definition: {}\n".format(prev)+
+            "Current definition: {}".format(value))
+        continue
+      else:
+        prev_datatype = self.get_datatype(of)
+      if self.vlevel > 1 and datatype != prev_datatype:
+        raise gfapy.InconsistencyError(
+          "Datadatatype mismatch error for field {}:\n".format(of)+
+          "value: {}\n".format(value)+
+          "existing datatype: {};\n".format(prev_datatype)+
+          "new datatype: {}".format(datatype))
 
   def _tags(self):
     """
